@@ -1384,6 +1384,20 @@ impl World for PairWorld {
             }
         }
         self.oracle_common(tr, &site, &pre, &post, ok);
+        // C19: a paused (Inactive) pair moves no funds for users; a partially active pair accepts liquidity but no swaps
+        if ok {
+            let swap = matches!(w[0], "swapIn" | "swapOut" | "swapNoFee");
+            let liq = matches!(w[0], "addLiq" | "removeLiq");
+            if pre.state == 0 && (swap || liq) {
+                tr.fail("C19", "paused_blocks_funds", &site, "a swap / liquidity operation succeeded on an inactive pair");
+            }
+            if pre.state == 2 && swap {
+                tr.fail("C19", "partial_pair_liquidity_only", &site, "a swap succeeded on a partially active pair");
+            }
+            if pre.state != 0 && w[0] == "addInitial" {
+                tr.fail("C19", "bootstrap_only_inactive", &site, "initial liquidity accepted on a pair that is not inactive");
+            }
+        }
         if ok && who != 0 && matches!(w[0], "swapIn" | "swapOut" | "addLiq" | "removeLiq" | "addInitial" | "swapNoFee" | "buyback") {
             self.others_unchanged(tr, &site, who, &pre, &post);
         }
